@@ -3,7 +3,7 @@
    get_children_of_type and of the `parent` assignment of process_node).  Hypotheses:
      uniq root            the model objects of the containment tree have distinct identities (Python id())
      no_parent_attr root  no grammar attribute is called `parent` (outside: known finding, see *_refuted) *)
-From TxV Require Import Core.Base Gen.SrcNav Model.Nav Model.NavSrc Proofs.NavProofs Proofs.NavSrcProofs.
+From TxV Require Import Core.Base Gen.SrcNav Gen.SrcNavBody Model.Nav Model.NavSrc Model.NavCfg Model.NavParent Proofs.NavProofs Proofs.NavSrcProofs Proofs.NavCfgProofs Proofs.NavParentProofs.
 
 (* Tie to the source (Gen/SrcNav.v is regenerated from textx/model.py on every run): the entry of
    parser._inst_stack that process_node assigns to `parent` is the top of the stack — the instance
@@ -28,6 +28,49 @@ Theorem C05_src_children :
   src_single_mults = [s_mult_one; s_mult_optional] /\ src_follow_guard = s_attr_cont.
 Proof. exact src_children_facts. Qed.
 Print Assumptions C05_src_children.
+
+(* Tie of the function bodies (Gen/SrcNavBody.v is regenerated on every run): nav_tr.py matches the
+   text of get_model / get_parent_of_type / get_children / get_children_of_type against the text the
+   model transcribes and reports which alternative the source uses where the model hard-codes a
+   choice (identity test on collected_ids, when the element is collected, `is not None` vs truth
+   value in the single-valued and list branches, should_follow on the start object, loop test of
+   get_model, whether get_parent_of_type tests the start object).  Model/NavCfg.v is the model with
+   those choices as parameters; the main statements hold for the instance found in the source, for
+   every truth-value and equality function of user objects. *)
+Theorem C05_src_children_body : forall truthy eqv sel sf cf root,
+  NoDup (map obj_id (walk sf cf root)) ->
+  get_children_cfg src_gc_cfg truthy eqv sel root cf sf = filter sel (walk sf cf root).
+Proof. exact src_children. Qed.
+Print Assumptions C05_src_children_body.
+
+Theorem C05_src_get_model_body : forall truthy_id root o fuel,
+  uniq root -> no_parent_attr root = true -> In o (nodes root) -> length (nodes root) <= fuel ->
+  get_model_cfg src_gm_loop truthy_id (heap_of root) fuel (obj_id o) = GObj (obj_id root).
+Proof. exact src_get_model. Qed.
+Print Assumptions C05_src_get_model_body.
+
+Theorem C05_src_parent_of_type_body : forall root o,
+  uniq root -> no_parent_attr root = true -> In o (nodes root) ->
+  exists l, up_chain o l /\ last l o = root /\
+    forall typ fuel, length (nodes root) <= fuel ->
+      pot_cfg src_pot_test_start (heap_of root) fuel typ (obj_id o) = pres_of (find (cls_is typ) l).
+Proof. exact src_parent_of_type. Qed.
+Print Assumptions C05_src_parent_of_type_body.
+
+(* the alternatives are not harmless: a truth-value test in the single-valued branch loses a falsy
+   contained object; testing the start object makes get_parent_of_type return the object itself *)
+Theorem C05_truthy_single_refuted :
+  exists truthy root, uniq root /\
+    get_children_cfg truthy_cfg truthy (fun _ _ => false) (fun _ => true) root false (fun _ => true)
+    <> filter (fun _ => true) (walk (fun _ => true) false root).
+Proof. exact truthy_single_breaks. Qed.
+Print Assumptions C05_truthy_single_refuted.
+
+Theorem C05_parent_of_type_test_start_refuted :
+  exists root typ, uniq root /\ no_parent_attr root = true /\
+    pot_cfg true (heap_of root) 6 typ 4 = PFound 4 /\ get_parent_of_type (heap_of root) 6 typ 4 = PNone.
+Proof. exact test_start_breaks. Qed.
+Print Assumptions C05_parent_of_type_test_start_refuted.
 
 (* The root has no parent; every object held by a containment attribute of an object of the
    tree has exactly that object as its parent. *)
@@ -75,15 +118,16 @@ Theorem C05_children_exact : forall sel sf cf root,
 Proof. exact get_children_exact. Qed.
 Print Assumptions C05_children_exact.
 
-(* Order: if b is reached from a (a <> b) and both are returned, a comes before b — with
-   children_first, after b. *)
+(* Order: if b is any object of the containment subtree of a (a <> b) and both are returned, a comes
+   before b — with children_first, after b.  (In a tree with distinct identities a returned object
+   below a can only have been reached through a: walked_descendant_reached.) *)
 Theorem C05_children_order : forall sel sf cf root a b,
-  uniq root -> reach sf a b -> a <> b ->
+  uniq root -> In b (nodes a) -> a <> b ->
   In a (get_children sel root cf sf) -> In b (get_children sel root cf sf) ->
   exists l1 l2 l3,
     get_children sel root cf sf =
     if cf then l1 ++ b :: l2 ++ a :: l3 else l1 ++ a :: l2 ++ b :: l3.
-Proof. exact children_order. Qed.
+Proof. exact children_order_desc. Qed.
 Print Assumptions C05_children_order.
 
 Theorem C05_children_of_type : forall t sf cf root,
@@ -117,6 +161,48 @@ Proof.
   vm_compute. discriminate.
 Qed.
 Print Assumptions C05_get_model_parent_attr_refuted.
+
+(* The known finding, stated over the model with Python's reading of an attribute called `parent`
+   (Model/NavParent.v: getattr(elem, "parent") is what the heap holds, not the slot value).
+   (1) Where no attribute is called `parent` that reading changes nothing: the traversal over the
+   Python attributes is the tree recursion of Model/Nav.v, for any heap and any recursion limit
+   above the size of the subtree — so the classifier's class is exactly where the tree model
+   stops being the code. *)
+Theorem C05_getattr_model_exact : forall root h sel sf cf elem,
+  no_parent_attr elem = true ->
+  forall fuel st, length (nodes elem) < fuel ->
+    followp root h fuel sel sf cf elem st = FOk (follow sel sf cf elem st).
+Proof. exact followp_follow. Qed.
+Print Assumptions C05_getattr_model_exact.
+
+(* (2) a containment attribute `parent=INT` of a nested rule: the traversal made on every load
+   (from the root, nothing selected) exceeds Python's recursion limit — the model cannot be loaded
+   (corpus/C05/parent_attr_nested.json: RecursionError) *)
+Theorem C05_parent_attr_nested_refuted :
+  uniq ex_parent_nested /\
+  followp ex_parent_nested (heap_of ex_parent_nested) 1000 (fun _ => false) (fun _ => true) false
+          ex_parent_nested ([], []) = FRecursion.
+Proof. exact parent_nested_symptom. Qed.
+Print Assumptions C05_parent_attr_nested_refuted.
+
+(* (3) a list attribute `parent+=R2` of a nested rule: get_children iterates over the container
+   object (corpus/C05/parent_attr_list.json: TypeError "object is not iterable") *)
+Theorem C05_parent_attr_list_refuted :
+  uniq ex_parent_list /\
+  followp ex_parent_list (heap_of ex_parent_list) 1000 (fun _ => false) (fun _ => true) false
+          ex_parent_list ([], []) = FTypeError.
+Proof. exact parent_list_symptom. Qed.
+Print Assumptions C05_parent_attr_list_refuted.
+
+(* (4) a reference `parent=[R1]`: the resolved reference replaces the container link, and two
+   objects referring to each other make get_model run forever (every fuel is exhausted)
+   (corpus/C05/parent_attr_reference.json) *)
+Theorem C05_parent_attr_reference_refuted :
+  uniq ex_parent_ref /\
+  lookup 1 (heap_of ex_parent_ref) = Some {| hcls := [82;49]%N; hparent := Some (PObj 2) |} /\
+  forall fuel, get_model (heap_of ex_parent_ref) fuel 1 = GFuel.
+Proof. exact parent_reference_symptom. Qed.
+Print Assumptions C05_parent_attr_reference_refuted.
 
 (* non-vacuity: a tree with nested containment and a back reference satisfies the hypotheses *)
 Example C05_nonvacuous_hyps :
